@@ -564,7 +564,7 @@ def run(ctx):
                     ([0, len(cases) // 3, len(cases) // 2, len(cases) - 1] if cases else [])],
     })
     ctx.assumptions += [
-        "div_ww (reciprocal division inside spideroak-base58) is modelled by its specification (quotient, remainder, assert x1<y)",
+        "u64 arithmetic of spideroak-base58 (wrapping_*, <<, >>, overflowing_*) is modelled as integer arithmetic modulo 2^64",
         "serde formats are modelled as: serde_json = quotes around the base58 text / JSON type dispatch; "
         "postcard = varint length + bytes; both tied by the correspondence run only",
         "the id is 32 bytes and text is a byte string (a Rust &str is valid UTF-8 by construction)",
